@@ -1,6 +1,7 @@
 package c09
 
 import (
+	"bytes"
 	"encoding/hex"
 	"fmt"
 	"reflect"
@@ -439,5 +440,31 @@ func FuzzAccept(f *testing.F) {
 			checkResponse(t, accept, info, v)
 			checkMime(t, accept, info, v)
 		})
+	})
+}
+
+// TestLargeCompressibleRoundTrip: values that compress by several orders of magnitude (a zeroed buffer, a string of one
+// repeated character, thousands of equal list entries), dumped with compression: the loaded value is equal, however
+// large the inflated data is compared with the compressed blob.
+func TestLargeCompressibleRoundTrip(t *testing.T) {
+	rapid.Check(t, func(t *rapid.T) {
+		f := rapid.SampledFrom([]uint8{dsd.JSON, dsd.CBOR, dsd.MsgPack, dsd.YAML, dsd.AUTO}).Draw(t, "format")
+		comp := rapid.SampledFrom([]int{dsd.GZIP, dsd.AUTO, compNone}).Draw(t, "compression")
+		s := &Subject{}
+		kind := rapid.SampledFrom([]string{"zero_bytes", "repeated_rune", "equal_entries", "all"}).Draw(t, "kind")
+		if kind == "zero_bytes" || kind == "all" {
+			s.Ba = bytes.Repeat([]byte{rapid.SampledFrom([]byte{0, 'x', 0xff}).Draw(t, "fill")}, rapid.SampledFrom([]int{3000, 20000, 300000}).Draw(t, "nbytes"))
+		}
+		if kind == "repeated_rune" || kind == "all" {
+			s.S = strings.Repeat(rapid.SampledFrom([]string{"a", "ab", " ", "0"}).Draw(t, "unit"), rapid.SampledFrom([]int{3000, 40000}).Draw(t, "times"))
+		}
+		if kind == "equal_entries" || kind == "all" {
+			s.Sa = make([]string, rapid.SampledFrom([]int{500, 5000}).Draw(t, "entries"))
+			for i := range s.Sa {
+				s.Sa[i] = "same entry"
+			}
+		}
+		checkRoundTrip(t, s, f, comp, "")
+		stats.Case(fmt.Sprintf("compressible/%d/%d/%s/%d/%d/%d", f, comp, kind, len(s.Ba), len(s.S), len(s.Sa)), true, "rt_highly_compressible_value", "rt_compressible_"+kind)
 	})
 }
